@@ -227,6 +227,12 @@ def worker(args):
             ctx.count('regression_cases_replayed')
         mod.run(ctx)
         res = ctx.result()
+    except CaseTimeout:
+        # the per-case watchdog fired outside the block it guards (a late alarm on a starved machine): the case is
+        # skipped and this shard ends here with what it has; the run's deciding counters say whether that was enough
+        ctx.count('case_timeouts_skipped')
+        ctx.count('shards_ended_by_a_late_watchdog_alarm')
+        res = ctx.result()
     except BaseException:
         res = ctx.result()
         res['harness_error'] = traceback.format_exc()[-4000:]
